@@ -439,6 +439,12 @@ func senGen(args []string) {
 	for i, tc := range heteroCases(*het, quick) {
 		emit(tc.tree, sopts(i%16), tc.p, "hetero")
 	}
+	// deep chains with siblings (sen writers with Indent, pretty.SEN beyond its indent table)
+	for _, dc := range deepCases(quick) {
+		o := dc.o
+		o.Sort = true
+		emit(dc.tree, o, dc.p, "deep")
+	}
 	// (4) numbers
 	for _, i := range append([]int64{0}, intLeaves...) {
 		for ci, t := range []M{aInt(i), aArr(aInt(i), aInt(i)), aObj("k", aInt(i))} {
